@@ -30,7 +30,8 @@ def _cpu_has(flag):
 
 # third configuration: C++11; -mfma (when the CPU has it) defines __FMA__ / FP_FAST_FMA / FP_FAST_FMAF, the macros a
 # hardware-FMA fast path would be keyed on; -ffp-contract=off keeps the compiler from fusing anything by itself
-STD_11 = ["-std=gnu++11"] + (["-mfma"] if _cpu_has("fma") else [])
+# (-mavx2 likewise: __AVX2__ / __AVX__; together they are what -march=x86-64-v3 / haswell / native builds predefine)
+STD_11 = ["-std=gnu++11"] + (["-mfma"] if _cpu_has("fma") else []) + (["-mavx2"] if _cpu_has("avx2") else [])
 STD_SAN = ["-std=gnu++14"]  # Imath's own default (config/ImathSetup.cmake: IMATH_CXX_STANDARD 14)
 VARIANTS = {
     # name: (compiler, flags)
